@@ -95,7 +95,7 @@ func candidates(d *m.Design) []*m.Design {
 		si := si
 		add(func(c *m.Design) {
 			s := c.Services[si]
-			s.Errors, s.ErrorResp, s.BasePath, s.Files, s.Security, s.Desc = nil, nil, "", nil, nil, ""
+			s.Errors, s.ErrorResp, s.BasePath, s.MoreBasePaths, s.Files, s.Security, s.Desc = nil, nil, "", nil, nil, nil, ""
 		})
 		add(func(c *m.Design) { c.Services[si].Files = nil })
 	}
